@@ -15,7 +15,7 @@ const SPEC: Spec = Spec {
     ],
     bounds_quick: "S +-Dense(S32,3); D1 u32 sequences of length <= 7 x 5 size hints; D2 length <= 5 x 7 sign tokens x 5 hints; D3 ill-typed elements; J serde_json round trips and JSON texts with trailing zeros",
     bounds_thorough: "S +-Dense(S32,3) + patterns up to 40 digits; D1 length <= 9; D2 length <= 7; D3; J",
-    hang_secs: 300,
+    hang_secs: 60,
     probes: None,
     max_workers: 16,
 };
